@@ -13,18 +13,24 @@ Dates == {<<2019, 12, 30>>, <<2020, 1, 28>>, <<2020, 1, 31>>, <<2020, 2, 28>>, <
 ExactIv == {MkD(0, 0, 0, 6), MkD(0, 0, 1, 0), MkD(0, 0, 7, 0), MkD(0, 0, 1, 12)}
 NominalIv == {MkD(0, 1, 0, 0), MkD(1, 0, 0, 0), MkD(0, 1, 2, 0), MkD(0, 2, 0, 0)}
 ZeroIv == {MkD(0, 0, 0, 0)}
-CONSTANTS Intervals, Fmts, Ns, Shifts
+CONSTANTS Intervals, Fmts, Ns, Shifts, WinSpecs
 TheShift == MkD(0, 0, 1, 1)
 NoShifts == {NoShift}
 OneShift == {TheShift}
 ShiftOK == ShiftedBy(TheShift)
+\* a window specification: <<lo, hi>> in whole days relative to the anchor, Open = no bound on that side
+Open == 99999
+MkWin(mm, a, ws) == [hasMin |-> ws[1] # Open, min |-> IF ws[1] # Open THEN AddExactTP(mm, a, <<ws[1], 0, 0>>) ELSE NoP,
+                     hasMax |-> ws[2] # Open, max |-> IF ws[2] # Open THEN AddExactTP(mm, a, <<ws[2], 0, 0>>) ELSE NoP]
+NoWins == {<<Open, Open>>}
+SomeWins == {<<Open, Open>>, <<0, Open>>, <<1, Open>>, <<Open, 2>>, <<Open, 0>>, <<-3, -1>>, <<1, 3>>, <<Open, -1>>, <<-9, 9>>, <<-2, Open>>}
 ValidIn(mm, dte) == ValidCal(mm, dte[1], dte[2], dte[3])
 Init ==
   /\ m \in Modes
-  /\ \E dte \in Dates, rep \in {"cal", "ord", "week"}, iv \in Intervals, fmt \in Fmts, n \in Ns :
+  /\ \E dte \in Dates, rep \in {"cal", "ord", "week"}, iv \in Intervals, fmt \in Fmts, n \in Ns, ws \in WinSpecs :
        /\ ValidIn(m, dte)
        /\ LET a == MkP(m, rep, dte[1], dte[2], dte[3], 82800, <<1, 0>>) IN
-          inp = [fmt |-> fmt, n |-> n, a |-> a, s |-> AddDurTP(m, a, MkD(0, 0, 1, 1)), d |-> iv]
+          inp = [fmt |-> fmt, n |-> n, a |-> a, s |-> AddDurTP(m, a, MkD(0, 0, 1, 1)), d |-> iv, w |-> MkWin(m, a, ws)]
   /\ r = [n |-> 0] /\ pc = "new" /\ cur = NoP /\ out = << >>
   /\ sh \in Shifts /\ out1 = << >>
 Spec == Init /\ [][Next]_vars
@@ -50,4 +56,6 @@ F13 == {1, 3}
 F4 == {4}
 NsAll == {0, 1, 2, 3, 5}
 NsBounded == {2, 3, 5}
+N3 == {3}
+LateWin == {<<1, Open>>}
 =============================================================================
